@@ -172,29 +172,30 @@ func (r *runner) runOne(cs *Case, seed uint64) {
 		os.WriteFile(d+"/"+cs.Name+".json", b, 0o644)
 	}
 	res := r.execCase(cs, seed)
-	if res.err == nil && (len(res.viols) > 0 || !r.agrees(&res.tr)) {
+	for attempt := 1; attempt <= 2 && res.err == nil && (len(res.viols) > 0 || !r.agrees(&res.tr)); attempt++ {
 		r.mu.Lock()
 		r.dump.Dist["rerun"]++
 		r.mu.Unlock()
 		slowCs := *cs
-		slowCs.IdleMs = 3 * max(cs.IdleMs, 1000)
-		slowCs.ReadMs = 1500
-		res2 := r.execCase(&slowCs, seed+1)
+		slowCs.IdleMs = 3 * attempt * max(cs.IdleMs, 1000)
+		slowCs.ReadMs = 1500 * attempt
+		res2 := r.execCase(&slowCs, seed+uint64(attempt))
 		res2.cs = cs
-		if res2.err == nil {
-			// keep the violations that reproduce
-			var keep []corr.Violation
-			for _, v := range res2.viols {
-				for _, w := range res.viols {
-					if v.Key == w.Key {
-						keep = append(keep, v)
-						break
-					}
+		if res2.err != nil {
+			break
+		}
+		// keep the violations that reproduce
+		var keep []corr.Violation
+		for _, v := range res2.viols {
+			for _, w := range res.viols {
+				if v.Key == w.Key {
+					keep = append(keep, v)
+					break
 				}
 			}
-			res2.viols = keep
-			res = res2
 		}
+		res2.viols = keep
+		res = res2
 	}
 	r.mu.Lock()
 	defer r.mu.Unlock()
@@ -286,7 +287,7 @@ func (r *runner) corrChild(out string) {
 		if !c.Quick() {
 			cases = append(cases, truncationCases(rng, Cfg{Handler: "full", UDP: false, TLS: true}, 3)...)
 		}
-		n := c.N(900, 12000)
+		n := c.N(900, 24000)
 		for i := 0; i < n; i++ {
 			cfg := cfgs[rng.IntN(len(cfgs))]
 			sub := rand.New(rand.NewPCG(c.Seed, uint64(i)+77))
